@@ -160,6 +160,9 @@ func RunC19(ep *core.Episode) {
 		idx := cur.handled
 		cur.handled++
 		time.Sleep(time.Millisecond) // distinct stage timestamps on the fake clock
+		if concurrent {
+			ep.S.Yield("handler.after-sleep") // sleepers of two connections wake at the same instant: serialise them again
+		}
 		if o.Stream && ctx.Request.IsBodyStream() {
 			ctx.Request.Body()
 		}
